@@ -43,6 +43,16 @@ def run(ch, build):
         pairs = [(a, b) for a in pool for b in pool if conn.cmd_op(a) != conn.cmd_op(b)]
         if ch.quick():
             pairs = rng.sample(pairs, min(len(pairs), 150))
+        # caller-defined commands (the ipmi.Command interface is open): two commands that share their Name() - the metrics
+        # label - but not their operation, and a group-extension / OEM command whose command number (and zero body code /
+        # enterprise number) coincides with a command of another network function
+        raw = lambda fn, cmd, body=0, hx="": {"name": "raw", "p": [fn, cmd, 0, body], "hex": hx}
+        special = [(raw(6, 0x01), raw(6, 0x37)), (raw(6, 0x37), raw(0x0a, 0x20)), (raw(0x0a, 0x22), raw(6, 0x01)),
+                   (raw(0x2c, 0x01), {"name": "getchassisstatus"}), (raw(0x2c, 0x01), {"name": "getdeviceid"}),
+                   (raw(0x2c, 0x02), {"name": "chassiscontrol", "p": [1]}), (raw(0x2c, 0x37), {"name": "getsystemguid"}),
+                   (raw(0x2c, 0x20), {"name": "getsdrrepoinfo"}),
+                   ({"name": "getchassisstatus"}, raw(0x2c, 0x01)), ({"name": "dcmicaps", "p": [1]}, raw(0x2c, 0x01))]
+        pairs = pairs + special
         for k, (a, b) in enumerate(pairs):
             su = hist.SUITES[k % 9]
             for pattern in ("dup", "delay", "delay3", "errstray", "threestrays") + (("busystray",) if not session else ()):
@@ -101,12 +111,17 @@ def run(ch, build):
                 body = data[2:]
             if layer:
                 lines.append("dec %s _ %s" % (layer, body or "-")); idx.append((ctx, cc, True))
+            elif ctx["step"]["cmd"]["name"] == "raw":
+                # a caller-defined command: the response data as the BMC sent it (group extension: behind the body code,
+                # OEM: behind the enterprise number)
+                fn = conn.cmd_op(ctx["step"]["cmd"])[0]
+                idx.append((ctx, cc, "raw " + (data[2:] if fn == 0x2c else data[6:] if fn == 0x2e else data)))
             else:
                 idx.append((ctx, cc, False))
     dec = iter(core.oracle(lines))
     allowed = {}
     for (ctx, cc, has) in idx:
-        d = next(dec) if has else ""
+        d = next(dec) if has is True else (has or "")
         allowed.setdefault(id(ctx), (ctx, set()))[1].add((cc, d))
     for ctx, al in allowed.values():
         res = ctx["res"]
